@@ -5,6 +5,7 @@ pub mod c04;
 pub mod c05;
 pub mod c07;
 pub mod c11;
+pub mod c12;
 pub mod c13;
 pub mod c14;
 pub mod c15;
@@ -18,5 +19,5 @@ pub mod exprspace;
 use crate::engine::Prop;
 
 pub fn all() -> Vec<Prop> {
-    vec![c01::PROP, c02::PROP, c03::PROP, c04::PROP, c05::PROP, c07::PROP, c11::PROP, c13::PROP, c14::PROP, c15::PROP, c16::PROP, c18::PROP, c19::PROP, c20::PROP]
+    vec![c01::PROP, c02::PROP, c03::PROP, c04::PROP, c05::PROP, c07::PROP, c11::PROP, c12::PROP, c13::PROP, c14::PROP, c15::PROP, c16::PROP, c18::PROP, c19::PROP, c20::PROP]
 }
